@@ -57,3 +57,101 @@ Example C16_reject_ex :
   ([], [ {| e_pos := Some (1, 5); e_kind := EInvalidEscape; e_subject := Some 4%nat |};
          {| e_pos := Some (2, 2); e_kind := ESyntax; e_subject := Some 9%nat |} ], false).
 Proof. vm_compute. reflexivity. Qed.
+
+(* ------------------------------------------------------------------ third sentence, errors from BUILDING a module,
+   end to end from the text.
+   [FrontEnd.front_end S text] is the model of Modules.Parse(text, name) up to the point where the modules are
+   filed: [Parse] above, then -- when the text is accepted -- the table-driven AST builder ([Ast.parse_all_e],
+   Model/Ast.v, the subject of C03) on the converted statement forest ([FrontEnd.to_ast]: keywords and arguments
+   as UTF-8 bytes, statements numbered in pre-order), a builder error's statement turned into the line:column
+   that statement carries ([FrontEnd.pos_of]).  S is the struct-tag table (the generated one is
+   [YangSchema.schema]; [C03_schema_wf] proves it well formed).  Tied to Modules.Parse by the `front` leg of the
+   check (check/props/c16front.py): kind and position of the first error, model against implementation. *)
+From GY Require Model.Ast Model.FrontEnd Spec.C03 Spec.C16Builder Proofs.FrontEndProofs Gen.YangSchema.
+
+(* T3: for EVERY table and text: a line:column in a builder error is the true (line, column in runes) -- in the
+   text as given -- of the offset at which the keyword of a statement of the text stands (a statement at any
+   depth: [FrontEnd.all_stmts] is the pre-order list of all of them), whatever precedes it.  T1 composed with
+   C03_pos_in_tree. *)
+Theorem C16_builder_error_positions : forall S text k l c,
+  FrontEnd.front_end S text = FrontEnd.FErr k (FrontEnd.At l c) ->
+  exists ss x, Parse text = (ss, [], false) /\ In x (FrontEnd.all_stmts ss) /\
+    FrontEnd.p_kw x <> [] /\ text_at (terminated text) (FrontEnd.p_off x) (FrontEnd.p_kw x) /\
+    (l, c) = linecol text (FrontEnd.p_off x).
+Proof. exact FrontEndProofs.front_end_error_positions_explicit. Qed.
+
+(* the builder never reports a statement that is not in the text, and the model's fuel flag is never raised *)
+Theorem C16_builder_error_known_statement : forall S text k,
+  FrontEnd.front_end S text <> FrontEnd.FErr k FrontEnd.BadId.
+Proof. exact FrontEndProofs.front_end_no_bad_id. Qed.
+
+Theorem C16_builder_fuel : forall S text, ~ In EOFR text -> FrontEnd.front_end S text <> FrontEnd.FOutOfFuel.
+Proof. exact FrontEndProofs.front_end_fuel. Qed.
+
+(* T4: for every well-formed table: WHICH statement, by error kind ([C16Builder.text_site], Spec/C16Builder.v =
+   Spec/C03.v's [site] read on the parser's statements): the unknown substatement itself (unknown field, extension
+   where none is kept); the statement that lacks the mandatory substatement (missing required, missing
+   required-for-this-keyword); the statement with the unknown keyword; no position for "already set" and "not a
+   module"; and -- pinned known behaviour, KNOWN_FINDINGS builder.kind-field-reported-at-parent -- the parent for
+   a substatement only the other keyword allows.  In each case the printed line:column is the true position of
+   that statement's keyword ([C16Builder.points_at]).  T1 composed with C03_pos_site and C03_pos_parse_all. *)
+Theorem C16_builder_error_site : forall S, C03.schema_wf S = true ->
+  forall text k p, FrontEnd.front_end S text = FrontEnd.FErr k p ->
+  exists ss, Parse text = (ss, [], false) /\ C16Builder.text_site S text ss k p.
+Proof. exact FrontEndProofs.front_end_error_site. Qed.
+
+(* (a) the position table: the statement ids handed to the builder are 0, 1, 2, ... in pre-order over the whole
+   text, and the table maps the id of the image of a parsed statement to the (line, column) that statement
+   carries ([FrontEndProofs.img]: same keyword and argument, id = index in the pre-order list, substatements
+   corresponding one to one in order) *)
+Theorem C16_builder_ids : forall ss,
+  flat_map C03.ids (FrontEnd.to_ast ss) = seq 0 (length (FrontEnd.all_stmts ss)) /\
+  Forall2 (FrontEndProofs.img (FrontEnd.all_stmts ss)) ss (FrontEnd.to_ast ss).
+Proof. exact (fun ss => conj (FrontEndProofs.ids_to_ast ss) (FrontEndProofs.to_ast_img ss)). Qed.
+
+Theorem C16_builder_pos_table : forall ss p a, FrontEndProofs.img (FrontEnd.all_stmts ss) p a ->
+  FrontEnd.pos_of ss (Ast.id_of a) = Some (FrontEnd.p_line p, FrontEnd.p_col p).
+Proof. exact FrontEndProofs.pos_of_img. Qed.
+
+Import Coq.Strings.String.StringSyntax.
+Local Open Scope string_scope.
+
+(* non-vacuity, on the generated table.  Three things wrong in one line; the builder reports the leaf without
+   type first (1:49 is where `leaf` stands) *)
+Example C16_builder_missing_ex :
+  FrontEnd.front_end YangSchema.schema
+    (FrontEnd.text_of "module m { namespace n; prefix p; container c { leaf a; bogus x; } } zzz y;")
+  = FrontEnd.FErr Ast.EMissing (FrontEnd.At 1 49).
+Proof. vm_compute. reflexivity. Qed.
+
+(* the unknown substatement (its keyword is e-acute followed by U+65E5) behind a comment with multi-byte runes, CR LF line ends,
+   tabs, a // comment and a multi-line string: reported at 6:3, the true position of offset 116 *)
+Definition C16_builder_layout_text : str :=
+  (FrontEnd.text_of "/* " ++ [26085; 233]%N ++ FrontEnd.text_of " */" ++ [13; 10]%N ++
+   FrontEnd.text_of "module m {" ++ [13; 10]%N ++
+   [9]%N ++ FrontEnd.text_of "namespace n; prefix p; // c" ++ [13; 10]%N ++
+   [9]%N ++ FrontEnd.text_of "container " ++ [233]%N ++ FrontEnd.text_of " { leaf a { type string; description 'x" ++ [13; 10]%N ++
+   FrontEnd.text_of "  y'; }" ++ [13; 10]%N ++
+   [9; 9]%N ++ [233; 26085]%N ++ FrontEnd.text_of " x; } }")%list.
+Example C16_builder_unknown_field_ex :
+  FrontEnd.front_end YangSchema.schema C16_builder_layout_text = FrontEnd.FErr Ast.EUnknownField (FrontEnd.At 6 3) /\
+  linecol C16_builder_layout_text 116 = (6, 3) /\
+  firstn 2 (skipn 116 C16_builder_layout_text) = [233; 26085]%N.
+Proof. vm_compute. repeat split. Qed.
+
+Example C16_builder_other_kinds_ex :
+  FrontEnd.front_end YangSchema.schema (FrontEnd.text_of "module m { prefix p; }")
+    = FrontEnd.FErr Ast.EMissingKind (FrontEnd.At 1 1) /\
+  FrontEnd.front_end YangSchema.schema (FrontEnd.text_of "module m { namespace n; prefix p; } bogus x;")
+    = FrontEnd.FErr Ast.EUnknownStmt (FrontEnd.At 1 37) /\
+  FrontEnd.front_end YangSchema.schema (FrontEnd.text_of "module m { namespace n; prefix p; prefix q; }")
+    = FrontEnd.FErr Ast.EAlreadySet FrontEnd.NoPos /\
+  FrontEnd.front_end YangSchema.schema (FrontEnd.text_of "container c;")
+    = FrontEnd.FErr Ast.ENotModule FrontEnd.NoPos /\
+  FrontEnd.front_end YangSchema.schema (FrontEnd.text_of "submodule s { belongs-to m { prefix p; } namespace n; }")
+    = FrontEnd.FErr Ast.EOtherKind (FrontEnd.At 1 1) /\
+  (exists es, FrontEnd.front_end YangSchema.schema (FrontEnd.text_of "module m { namespace n; prefix p; } }")
+    = FrontEnd.FSyntax es) /\
+  (exists ns, FrontEnd.front_end YangSchema.schema (FrontEnd.text_of "module m { namespace n; prefix p; leaf a { type string; } }")
+    = FrontEnd.FOk ns).
+Proof. vm_compute. repeat split; eexists; reflexivity. Qed.
